@@ -225,3 +225,76 @@ def mirror(c):
     # the distortion term keeps only its (ubar'^2 - ubar^2)/2 part
     hp = (v['n'][1] * (yb[1] * ua[1] - ya[1] * ub[1])) / (v['n'][n - 1] * ul)
     c.ensure_eq('C08.mirror.pin_all_terms_zero', c.val(full[8][1]), hp * (ub[2] ** 2 - ub[1] ** 2) / 2)
+
+
+def _tsc_limit(ct, tier, seed):
+    """bounded: the third-order transverse spherical sum predicts the real marginal-ray error in the small-aperture limit:
+    y_image(rho) / rho^3 -> sum TSC as the pupil fraction rho -> 0, the discrepancy shrinking quadratically"""
+    import random
+    import time
+    import warnings
+    import numpy as np
+    from optiland.optic import Optic
+    from optiland.materials import IdealMaterial
+    warnings.simplefilter('ignore')
+    np.seterr(all='ignore')
+    t0 = time.time()
+    rng = random.Random(seed * 37 + 6)
+    clauses, fails, cases = {}, [], 0
+    cid = 'C08.runtime.transverse_spherical_sum_predicts_small_aperture_marginal_ray_error'
+    c_ = clauses.setdefault(cid, {'paths': 0, 'proved': 0, 'backends': {}, 'failed': [], 'seconds': 0.0, 'bounded': True})
+    for i in range(4 if tier == 'quick' else 40):
+        L = Optic()
+        finite = (i % 3 == 2)
+        L.add_surface(index=0, thickness=(rng.uniform(150, 400) if finite else np.inf))
+        idx = 1
+        stop_at = rng.randrange(1, 5)
+        for e in range(2):
+            # positive elements of varying bending (biconvex, plano-convex-like, meniscus), so that a real image exists
+            R1 = rng.uniform(30, 90)
+            R2 = rng.choice([-1.0, -1.0, 4.0]) * rng.uniform(40, 120)
+            L.add_surface(index=idx, radius=R1, thickness=rng.uniform(2, 5), material=IdealMaterial(rng.uniform(1.45, 1.8)), is_stop=(idx == stop_at))
+            idx += 1
+            L.add_surface(index=idx, radius=R2, thickness=rng.uniform(3, 20), is_stop=(idx == stop_at))
+            idx += 1
+        L.add_surface(index=idx)
+        L.set_aperture('EPD', rng.uniform(4, 8))
+        if finite:
+            L.set_field_type('object_height')
+            L.add_field(y=0)
+            L.add_field(y=rng.uniform(2, 6))
+        else:
+            L.set_field_type('angle')
+            L.add_field(y=0)
+            L.add_field(y=rng.uniform(2, 8))
+        L.add_wavelength(0.55, is_primary=True)
+        try:
+            L.image_solve()
+            tsc = float(np.sum(L.aberrations.TSC()))
+            epss = [0.3, 0.1, 0.03]
+            errs = []
+            for eps in epss:
+                L.trace_generic(0.0, 0.0, 0.0, eps, 0.55)
+                errs.append(abs(float(L.surface_group.y[-1, 0]) / eps ** 3 - tsc))
+        except Exception:
+            continue
+        if not np.all(np.isfinite(errs)) or not np.isfinite(tsc):
+            continue
+        cases += 1
+        c_['paths'] += 1
+        C = errs[0] / epss[0] ** 2
+        ok = all(e <= 3 * C * eps ** 2 + 1e-9 for e, eps in zip(errs[1:], epss[1:])) and errs[-1] <= 5e-3 * abs(tsc) + 1e-9
+        if ok:
+            c_['proved'] += 1
+            c_['backends']['runtime'] = c_['backends'].get('runtime', 0) + 1
+        else:
+            fails.append({'clause': cid, 'draws': {'lens': 'two spherical singlets #%d' % i, 'seed': seed},
+                          'note': 'sum TSC = %.6g, |y/rho^3 - TSC| = %s at rho = %s' % (tsc, errs, epss)})
+    return {'contract': ct.name, 'functions': ct.functions, 'props': ct.props,
+            'symbolic': {'clauses': clauses, 'paths': 0, 'errors': [], 'solver_s': 0.0, 'samples': [], 'wd_assumed': [], 'assumed': []},
+            'numeric': {'accepted': cases, 'rejected': 0, 'failures': fails[:10], 'concolic_agree': 0, 'encoder_mismatches': [],
+                        'samples': [{'rho': [0.3, 0.1, 0.03]}]}, 'wall_s': time.time() - t0}
+
+
+contract('C08.runtime.tsc_limit', ['optiland/aberrations.py:Aberrations.TSC', 'optiland/aberrations.py:Aberrations._precalculations',
+                                   'optiland/optic.py:Optic.trace_generic'], ['C08'], custom=_tsc_limit)(lambda c: None)
